@@ -109,28 +109,28 @@ func c03Check(in c03In, zeroForOne, exactIn bool, step c03Step) {
 
 func VH_C03_zfo_OutGivenIn() {
 	in := c03Inputs(true)
-	s := &zeroForOneStrategy{sqrtPriceLimit: c03BD(c03MinSqrt), spreadFactor: c03Dec(in.spread)}
+	s := New(true, c03BD(c03MinSqrt), nil, c03Dec(in.spread))
 	vConfig("lazy", 1)
 	c03Check(in, true, true, s.ComputeSwapWithinBucketOutGivenIn)
 }
 
 func VH_C03_ofz_OutGivenIn() {
 	in := c03Inputs(false)
-	s := &oneForZeroStrategy{sqrtPriceLimit: c03BD(c03MaxSqrt), spreadFactor: c03Dec(in.spread)}
+	s := New(false, c03BD(c03MaxSqrt), nil, c03Dec(in.spread))
 	vConfig("lazy", 1)
 	c03Check(in, false, true, s.ComputeSwapWithinBucketOutGivenIn)
 }
 
 func VH_C03_zfo_InGivenOut() {
 	in := c03Inputs(true)
-	s := &zeroForOneStrategy{sqrtPriceLimit: c03BD(c03MinSqrt), spreadFactor: c03Dec(in.spread)}
+	s := New(true, c03BD(c03MinSqrt), nil, c03Dec(in.spread))
 	vConfig("lazy", 1)
 	c03Check(in, true, false, s.ComputeSwapWithinBucketInGivenOut)
 }
 
 func VH_C03_ofz_InGivenOut() {
 	in := c03Inputs(false)
-	s := &oneForZeroStrategy{sqrtPriceLimit: c03BD(c03MaxSqrt), spreadFactor: c03Dec(in.spread)}
+	s := New(false, c03BD(c03MaxSqrt), nil, c03Dec(in.spread))
 	vConfig("lazy", 1)
 	c03Check(in, false, false, s.ComputeSwapWithinBucketInGivenOut)
 }
